@@ -168,7 +168,8 @@ class World:
                 self.kwbase[v] = ('raised', type(e).__name__)
 
     def handlers(self):
-        return [type(h).__name__ + ':' + str(h.get_name()) for h in logging.getLogger('emd').handlers]
+        # (every handler with its own level: a per-call override concerns the console, the log file keeps recording as configured)
+        return [type(h).__name__ + ':' + str(h.get_name()) + ('' if h.get_name() == 'console' else '@%s' % h.level) for h in logging.getLogger('emd').handlers]
 
 
 def step(world, model, op, variant='sift'):
